@@ -570,7 +570,10 @@ func stripParamNames(sig string) string {
 			b.WriteByte(ch)
 		case ch == ' ':
 			// "name type": drop the name when the token so far is a plain identifier and we are inside a tuple
-			if depth >= 1 && isPlainIdent(tok) && i+1 < len(sig) && sig[i+1] != ' ' && tok != "func" && tok != "chan" && tok != "map" && tok != "interface" && tok != "struct" {
+			t := strings.TrimSpace(tok)
+			if t == "" {
+				// drop blanks after separators
+			} else if depth >= 1 && isPlainIdent(t) && i+1 < len(sig) && sig[i+1] != ' ' && t != "func" && t != "chan" && t != "map" && t != "interface" && t != "struct" {
 				tok = ""
 			} else {
 				tok += " "
